@@ -1,6 +1,57 @@
-"""C04: unit contracts (contracts/*.py) plus the GENPROG obligations that carry this property (generated model loaders)."""
+"""C04: unit contracts (contracts/*.py) plus the GENPROG obligations that carry this property (generated model loaders), plus the
+closed-world `raises` clause for the loaders that are NOT repository functions: `FilledRetort.recipe` registers the classes themselves
+(`loader(tp, tp)` for UUID, the six ipaddress classes and the six path classes) — there is no AST of /repo to execute for them, the loader
+is a stdlib constructor.  They are probed exactly like every other built-in operation inside the proofs: on the representative of every
+cell of the data universe D (the same uniformity-inside-a-cell assumption), through the loader the real retort hands out, in all six
+(strict_coercion, debug_trail) configurations, standalone and nested in a list.  No solver is involved: listed under `bounded`."""
+import itertools
+
+
+def constructor_rows():
+    import ipaddress
+    import pathlib
+    import typing
+    import uuid
+
+    from adaptix import DebugTrail, Retort
+    from adaptix.load_error import LoadError
+    from pyvc.universe import CELL_NAMES, N_CELLS, rep
+    types = [uuid.UUID, ipaddress.IPv4Address, ipaddress.IPv6Address, ipaddress.IPv4Network, ipaddress.IPv6Network, ipaddress.IPv4Interface,
+             ipaddress.IPv6Interface, pathlib.PurePath, pathlib.Path, pathlib.PurePosixPath, pathlib.PosixPath, pathlib.PureWindowsPath]
+    viol, n = [], 0
+
+    def leaves(e):
+        if isinstance(e, BaseExceptionGroup):
+            for s in e.exceptions:
+                yield from leaves(s)
+        else:
+            yield e
+    for tp, strict, dt in itertools.product(types, (True, False), DebugTrail):
+        retort = Retort(strict_coercion=strict, debug_trail=dt)
+        for kind, hint, wrap in (("plain", tp, lambda d: d), ("in-list", typing.List[tp], lambda d: [d])):
+            loader = retort.get_loader(hint)
+            bad = []
+            for i in range(N_CELLS):
+                n += 1
+                try:
+                    datum = wrap(rep(i))
+                    loader(datum)
+                except Exception as e:  # noqa: BLE001
+                    rogue = [x for x in leaves(e) if not isinstance(x, LoadError)]
+                    if rogue or (isinstance(e, BaseExceptionGroup) and not isinstance(e, LoadError)):
+                        bad.append((CELL_NAMES[i], type((rogue or [e])[0]).__name__))
+            if bad:
+                viol.append({"unit": f"constructor loader {tp.__name__}", "clause": "raises-closed",
+                             "witness": f"{kind}; strict={strict}; {dt.name}; cells={','.join(c for c, _ in bad[:4])}…"[:160],
+                             "w": {"input": f"{len(bad)} cells of D, e.g. {bad[0][0]} as {getattr(hint, '__name__', hint)}"[:300],
+                                   "native_outcome": f"non-LoadError escapes: {sorted({k for _, k in bad})} on {len(bad)} of {N_CELLS} cells"[:300]}})
+    return {"obligations": 0, "discharged": 0, "violations": viol[:60], "solver_time": 0.0,
+            "bounded": [{"unit": "stdlib constructors registered as loaders (UUID, ipaddress.*, pathlib.*)",
+                         "bound": f"{n} probes: {len(types)} types x 6 configurations x plain / inside List x all {N_CELLS} cells of D"}],
+            "samples": [{"constructor_probes": n, "failed_rows": len(viol)}],
+            "assumptions": ["stdlib constructor loaders are probed per cell of D (uniformity inside a cell), not executed symbolically"]}
 
 
 def extra_checks(tier, seed):
     from genprog.check import extra_for_property
-    return [extra_for_property("C04", tier, seed)]
+    return [extra_for_property("C04", tier, seed), constructor_rows()]
